@@ -13,6 +13,7 @@ tie: T-gen for Bits.__ilshift__/_flip (translators/py2coq_bits.py); T-acc: the u
 """
 import itertools
 from common import *
+import io, contextlib
 import sched_common as sc
 
 def ff_design(rng, name):
@@ -89,6 +90,14 @@ def ff_design(rng, name):
     L += [f's.orf = OutPort( 8 )', f'connect( s.orf, s.rf[{m-1}] )']
     blocks.append([f'for i in range({m}):', '  if s.i0[i]:', f'    s.rf[i] <<= s.rf[{m-1} - i] + s.i0', '  elif s.en:', '    s.rf[i] <<= s.i0'])
     feats.add('ff-loop-with-branch')
+  # reset-aware registers; a REGISTERED reset forwarded through a comb block clears a counter (values change during the
+  # three reset cycles and reach other update_ff blocks only through combinational logic)
+  if rng.random() < 0.6:
+    L += ['s.rst_d = Wire( 1 )', 's.clr = Wire( 1 )', 's.cnt = Wire( 8 )', 's.ocnt = OutPort( 8 )', 'connect( s.ocnt, s.cnt )',
+          '@update', 'def c_clr():', '  s.clr @= s.rst_d | s.reset']
+    blocks.append(['s.rst_d <<= s.reset'])
+    blocks.append(['if s.clr:', f'  s.cnt <<= {rng.randrange(0, 4)}', 'else:', '  s.cnt <<= s.cnt + 1'])
+    feats.add('registered-reset')
   # comb readers and nets fed by registers (forwarding through nets, slices)
   L += [f's.o0 = OutPort( {w} )', f's.o1 = OutPort( {w} )', f's.w0 = Wire( {w} )']
   L += ['connect( s.o0, s.r0 )', 'connect( s.w0, s.r1 )']
@@ -112,9 +121,9 @@ def ff_design(rng, name):
       t_ = typ[1] if typ[0] == 'struct' else str(typ[1])
       w_ += [f's.{n_} = InPort( {t_} )', f'connect( s.{n_}, s.d.{n_} )']
     wb = '\n'.join('    ' + l for l in w_)
-    g.src = sc.STRUCT_SRC + f'\nclass {name}_inner( Component ):\n  def construct( s ):\n{body}\n' + f'\nclass {name}( Component ):\n  def construct( s ):\n{wb}\n'
+    g.src = sc.STRUCT_SRC + f'\nclass {name}_inner( Component ):\n  def construct( s ):\n{body}\n' + f'\nclass {name}( Component ):\n  def construct( s ):\n{wb}\n  def line_trace( s ):\n    return ""\n'
   else:
-    g.src = sc.STRUCT_SRC + f'\nclass {name}( Component ):\n  def construct( s ):\n{body}\n'
+    g.src = sc.STRUCT_SRC + f'\nclass {name}( Component ):\n  def construct( s ):\n{body}\n  def line_trace( s ):\n    return ""\n'
   g.source = lambda: g.src
   return g
 
@@ -158,6 +167,7 @@ def run(ctx):
   ndes = 150 if quick else 1200
   cycles = 8 if quick else 20
   coq_cases, coq_meta = [], []
+  _devnull = io.StringIO()
   for k in range(ndes):
     if k % 3 == 2:
       g = sc.Gen(random.Random(rng.randrange(1 << 30)), f'F{k}', size='medium').build()
@@ -175,9 +185,25 @@ def run(ctx):
       insts = [(f'simple:ff{p}', sc.build(cls, 'simple', ff_perm=list(p), seed=i)) for i, p in enumerate(perms)]
       insts += [(s_, sc.build(cls, s_, seed=0)) for s_ in ('dynamic', 'unroll', 'heuristic', 'mamba')]
       insts.append(('dynamic:ffrev', sc.build(cls, 'dynamic', ff_perm=list(range(nff))[::-1])))
+      # the same pass groups with line tracing switched on (the design has a line_trace method): tracing must not change what is simulated
+      insts += [(s_ + ':linetrace', sc.build(cls, s_, seed=0, trace=True)) for s_ in ('simple', 'dynamic', 'unroll', 'heuristic', 'mamba')]
       seed = rng.randrange(1 << 30)
-      for _, t in insts: t.sim_reset()
-      O.sim_reset()
+      with contextlib.redirect_stdout(io.StringIO()):
+        for _, t in insts: t.sim_reset()
+      # sim_reset is three clock edges with reset high (combinational logic evaluated before each), then reset low: the oracle
+      # performs exactly that with its own edge
+      O.reset @= 1
+      for c_ in range(3): oracle_tick(ctx, O, g, fpl, src, -3 + c_)
+      O.reset @= 0
+      for b_ in O._sched.update_schedule: b_()
+      exp0 = sc.snapshot(O)
+      for nm, t in insts:
+        got0 = sc.snapshot(t)
+        if got0 != exp0:
+          ks = [x for x in exp0 if exp0[x] != got0.get(x)]
+          ctx.violation(f'C07:reset-sequence:{g.name}:{nm}', f'{g.name} under {nm}: the state after sim_reset() differs from three edges with reset high followed by reset low on {ks[:4]} (expected/observed {[(exp0[x], got0.get(x)) for x in ks[:4]]})',
+                        {'design_source': src, 'variant': nm, 'signals': {x: (exp0[x], got0.get(x)) for x in ks[:8]}})
+          break
       rs = [random.Random(seed) for _ in insts]; ro = random.Random(seed)
       dead = set()
       for c in range(cycles):
@@ -186,7 +212,7 @@ def run(ctx):
         for j, (nm, t) in enumerate(insts):
           sc.drive_inputs(t, g, rs[j])
           if j in dead: continue
-          t.sim_tick()
+          with contextlib.redirect_stdout(_devnull): t.sim_tick()
           got = sc.snapshot(t)
           ctx.count((g.name, nm, c), True, cls='tick:' + nm.split(':')[0])
           if got != exp:
